@@ -20,3 +20,29 @@ func Huge(n int64, prefix []byte) (b []byte, release func()) {
 	copy(m, prefix)
 	return m, func() { _ = syscall.Munmap(m) }
 }
+
+// ReadOnly returns a copy of data that lives in memory mapped READ-ONLY (key material in a protected mapping, a zero-copy view
+// of a string constant, a file mapping): any write through the slice - even one that is undone before the call returns - faults.
+// atEnd places the data so that it ends exactly at the end of the mapping (the page behind it is not mapped: reads beyond the
+// slice fault too). It returns nil when the mapping cannot be made. release unmaps it.
+func ReadOnly(data []byte, atEnd bool) (b []byte, release func()) {
+	page := syscall.Getpagesize()
+	size := (len(data)/page + 1) * page
+	m, err := syscall.Mmap(-1, 0, size, syscall.PROT_READ|syscall.PROT_WRITE, syscall.MAP_ANON|syscall.MAP_PRIVATE)
+	if err != nil {
+		return nil, func() {}
+	}
+	off := 0
+	if atEnd {
+		off = size - len(data)
+	}
+	for i := range m {
+		m[i] = Canary(i)
+	}
+	copy(m[off:], data)
+	if err := syscall.Mprotect(m, syscall.PROT_READ); err != nil {
+		_ = syscall.Munmap(m)
+		return nil, func() {}
+	}
+	return m[off : off+len(data) : off+len(data)], func() { _ = syscall.Munmap(m) }
+}
